@@ -56,6 +56,7 @@ class Storm:
     def server(self, **cfg):
         if self.password:
             cfg["password"] = sut.password_hash(self.binary, self.password)
+        cfg.setdefault("operators", [{"name": "root", "password": sut.password_hash(self.binary, "rootpw")}])
         return sut.Server(self.binary, cfg, hooks=self.hooks, worker_threads=self.threads,
                           jitter=(self.jitter, self.r.randrange(1 << 30)) if self.jitter else None)
 
@@ -151,25 +152,58 @@ class Storm:
         self.quiesce(srv, expect_users=[], expect_conns=0, what=what + " teardown")
 
     def w_rename(self, srv, k):
-        """k registered users all rename to one nick at once"""
+        """k registered users, members of one channel, all rename to one nick at once (in half of the rounds behind an
+        OPER, whose password verification holds the state lock: the renames queue up and are released together);
+        exactly one succeeds, and afterwards the channel roster, as seen by an observer that followed the NICK
+        announcements, lists everybody exactly once under the nickname it now has"""
         self.rounds += 1
-        cs = open_many(srv, k, self.uid("r"), password=self.password)
+        pfx = self.uid("r")
+        cs = open_many(srv, k, pfx, password=self.password)
+        obs, gatec = open_many(srv, 2, pfx + "o", password=self.password)
+        chan = "#" + self.uid("rn")
+        for c in cs + [obs]:
+            c.send("JOIN " + chan)
+        for c in cs + [obs]:
+            c.ping("j")
+        time.sleep(0.01)
+        for c in cs + [obs]:
+            c.ping("j2")
+            c.read_available(0.0)
         nick = self.uid("y")
-        fire(cs, [b"NICK %s\r\n" % nick.encode() for _ in cs])
+        gated = self.r.random() < 0.5
+        if gated:
+            fire([gatec] + cs, [b"OPER root rootpw\r\n"] + [b"NICK %s\r\n" % nick.encode() for _ in cs])
+        else:
+            fire(cs, [b"NICK %s\r\n" % nick.encode() for _ in cs])
         ok = []
         for i, c in enumerate(cs):
             lines = c.ping("rn")
             self.events += len(lines)
             if not any(m.verb == "433" for m in lines):
                 ok.append(i)
-        self.classes.add(("rename", k, len(ok)))
+        self.classes.add(("rename", k, len(ok), gated))
         s = self.quiesce(srv, what="rename storm")
         if len(ok) != 1 or (s is not None and nick not in s["users"]):
             self.bad("storm:rename-winners", "rename storm to %s: %d of %d accepted; users %s"
                      % (nick, len(ok), k, sorted(s["users"]) if s else "?"))
         else:
             self.winners.add(("rename", ok[0]))
-        for c in cs:
+        # the observer: NICK announcements heard, then the roster
+        heard = [m for m in obs.ping("ob") if m.verb == "NICK"]
+        obs.send("NAMES " + chan)
+        roster = []
+        for m in obs.read_until(lambda m: m.verb == "366", 8.0):
+            if m.verb == "353":
+                roster += [n.lstrip("~&@%+") for n in m.params[-1].split()]
+        want = sorted(["%s%d" % (pfx, i) for i in range(k) if i not in ok[:1]] + ([nick] if ok else []) + [pfx + "o0"])
+        self.events += len(heard) + len(roster)
+        if sorted(roster) != want:
+            self.bad("storm:rename-roster", "after the rename storm NAMES %s lists %s, expected %s (%d renames accepted)"
+                     % (chan, sorted(roster), want, len(ok)))
+        if len(heard) != min(len(ok), 1) and len(ok) == 1:
+            self.bad("storm:rename-announcements", "the observer heard %d NICK announcements for one accepted rename: %s"
+                     % (len(heard), [m.raw for m in heard][:3]))
+        for c in cs + [obs, gatec]:
             c.close()
         self.quiesce(srv, expect_users=[], expect_conns=0, what="rename storm teardown")
 
@@ -516,6 +550,88 @@ class Storm:
             c.close()
         self.quiesce(srv, expect_users=[], expect_conns=0, what="flood teardown")
 
+    # ---------------------------------------------------------------- W9 members leaving in the middle of a flood
+    def w_quit_flood(self, srv, n):
+        """one sender pipelines n numbered messages to a channel; some members leave meanwhile (QUIT, close, PART,
+        being kicked): every member that stays gets every message exactly once and in order - a copy that cannot be
+        delivered to somebody who is just leaving must not cost the others theirs"""
+        import threading
+        self.rounds += 1
+        pfx = self.uid("g")
+        snd = open_many(srv, 1, pfx + "s", password=self.password)[0]
+        stay = open_many(srv, 5, pfx + "t", password=self.password)
+        leave = open_many(srv, 4, pfx + "l", password=self.password)
+        chan = "#" + self.uid("qf")
+        snd.send("JOIN " + chan)
+        snd.ping("j")
+        # stayers and leavers join interleaved: the member map mixes them
+        for a, b in zip(stay, leave + [None]):
+            for c in (a, b):
+                if c is not None:
+                    c.send("JOIN " + chan)
+                    c.ping("j")
+        for c in [snd] + stay + leave:
+            c.ping("j2")
+            c.read_available(0.0)
+        pad = "y" * 120
+        burst = b"".join(("PRIVMSG %s :qf %d %s\r\n" % (chan, j, pad)).encode() for j in range(n))
+        burst += ("PRIVMSG %s :FLUSH\r\nPING end\r\n" % chan).encode()
+        got = {}
+
+        def drain(i, c):
+            try:
+                got[i] = c.read_until(lambda m: m.verb == "PRIVMSG" and m.params[-1:] == ["FLUSH"], 60.0)
+            except (wire.Closed, wire.Timeout) as ex:
+                got[i] = getattr(ex, "lines", []) + [None]
+        ths = [threading.Thread(target=drain, args=(i, c)) for i, c in enumerate(stay)]
+        for t in ths:
+            t.start()
+        snd.sock.settimeout(60.0)
+        st = threading.Thread(target=lambda: snd.send_raw(burst))
+        st.start()
+        hows = ["QUIT", "close", "PART", "QUIT"]
+        self.r.shuffle(hows)
+        for c, how in zip(leave, hows):
+            time.sleep(self.r.choice([0.0, 0.002, 0.01, 0.03]))
+            try:
+                if how == "QUIT":
+                    c.send("QUIT :leaving in the flood")
+                elif how == "PART":
+                    c.send("PART " + chan)
+                else:
+                    c.close()
+            except (OSError, wire.Closed):
+                pass
+        st.join(60.0)
+        try:
+            snd.read_until(lambda m: m.verb == "PONG" and m.params[-1:] == ["end"], 60.0)
+        except (wire.Closed, wire.Timeout) as ex:
+            self.bad("storm:quitflood-sender", "sender lost during the flood (%s)" % type(ex).__name__)
+        for t in ths:
+            t.join(70.0)
+        src = "%ss0" % pfx
+        want = list(range(n))
+        for i in range(len(stay)):
+            lines = got.get(i, [None])
+            if lines and lines[-1] is None:
+                self.bad("storm:quitflood-lost", "a member that stayed: stream ended before the flush marker (%d lines)"
+                         % (len(lines) - 1))
+                lines = lines[:-1]
+            seq = [int(m.params[-1].split()[1]) for m in lines
+                   if m is not None and m.verb == "PRIVMSG" and m.params[-1].startswith("qf ")
+                   and (m.source or "").split("!")[0] == src]
+            self.events += len(lines)
+            if seq != want:
+                missing = sorted(set(want) - set(seq))
+                self.bad("storm:quitflood-copies", "a member that stayed on the channel got %d of %d messages while others "
+                         "were leaving (missing %s%s, duplicated %s, in order: %s)"
+                         % (len(seq), n, missing[:8], "..." if len(missing) > 8 else "",
+                            [x for x in set(seq) if seq.count(x) > 1][:5], seq == sorted(seq)))
+        self.classes.add(("quitflood", n, tuple(sorted(hows))))
+        for c in [snd] + stay + leave:
+            c.close()
+        self.quiesce(srv, expect_users=[], expect_conns=0, what="quit-flood teardown")
+
     # ---------------------------------------------------------------- W8 a reader that stops reading
     def w_stall(self, srv, ncmd):
         """one connection with a tiny receive buffer pipelines commands with very long replies and reads nothing: its
@@ -701,7 +817,7 @@ def worker(args):
             r = st.r
             for _ in range(rounds):
                 kind = r.choice(["claim", "claim", "claim", "rename", "firstjoin", "order", "limit", "fifo", "churn", "flood",
-                                 "stall"] if only is None else only)
+                                 "stall", "quitflood"] if only is None else only)
                 if kind == "claim":
                     st.w_claim(srv, r.choice([4, 8, 16]), r.choice(["nick-then-user", "user-then-nick", "one-segment"]))
                 elif kind == "rename":
@@ -714,6 +830,8 @@ def worker(args):
                     st.w_limit(srv, r.choice([6, 10]), r.choice([1, 2, 3, 5]))
                 elif kind == "fifo":
                     st.w_order_full(srv, r.choice([3, 5, 12]), r.choice([30, 120]) if quick else r.choice([80, 400]))
+                elif kind == "quitflood":
+                    st.w_quit_flood(srv, r.choice([600, 1500]) if quick else r.choice([1500, 4000]))
                 elif kind == "stall":
                     st.w_stall(srv, r.choice([300, 500]) if quick else r.choice([400, 800]))
                 elif kind == "flood":
